@@ -533,6 +533,13 @@ class Representation(RepresentationBaseType):
                 seg.elt.check_almost_equal(
                     expected_time, next_decode_time, delta=delta, msg=msg)
                 seg.expected_decode_time = next_decode_time
+            elif (
+                    seg.expected_decode_time is None and
+                    next_decode_time is not None and
+                    seg.expected_seg_num == next_seg_num):
+                # on-demand profile without a list of segment durations:
+                # consecutive segments are contiguous
+                seg.expected_decode_time = next_decode_time
             if not seg.validated:
                 await seg.validate()
             self.log.debug('%s: Segment %s decode time span: %s -> %s', self.id,
